@@ -219,6 +219,48 @@ func c12Scenarios(tier string) []c12Scenario {
 			}
 		}
 	}
+	// outputs past the size thresholds a cache might treat differently (1 MiB; in the thorough tier also
+	// 64 KiB and 4 MiB): as a new entry, stored again, and with the output already stored for another id
+	// -- under file faults at the first, the last and every eighth operation, and under every source
+	// fault of the second pass.  Direct oracles only (the model is not run on contents of this size).
+	for _, d := range hugeContents(tier) {
+		tag := fmt.Sprintf("size%d", len(d))
+		o := c12pat(300, 4)
+		out = append(out, c12Scenario{Name: "new/" + tag, Pre: map[string][]byte{}, ID: 0, Data: d, Undamaged: true})
+		out = append(out, c12Scenario{Name: "same/" + tag, ID: 0, Data: d, Undamaged: true, Pre: map[string][]byte{
+			"a:" + idHex(0): entryBytes(0, d, 1700000000000000013), "d:" + outHex(d): d}})
+		out = append(out, c12Scenario{Name: "shared/" + tag, ID: 0, Data: d, Undamaged: true, Pre: map[string][]byte{
+			"a:" + idHex(1): entryBytes(1, d, 1700000000000000014), "d:" + outHex(d): d,
+			"a:" + idHex(2): entryBytes(2, o, 1700000000000000015), "d:" + outHex(o): o}})
+		pres := []struct {
+			n string
+			p map[string][]byte
+		}{
+			{"same", map[string][]byte{"a:" + idHex(0): entryBytes(0, d, 1700000000000000016), "d:" + outHex(d): d}},
+			{"shared", map[string][]byte{"a:" + idHex(1): entryBytes(1, d, 1700000000000000017), "d:" + outHex(d): d}},
+		}
+		for _, pr := range pres {
+			for _, spec := range []string{"err2", "eof2", "diff2"} {
+				for _, r := range []int{0, 32768, len(d) / 2, len(d) - 1} {
+					out = append(out, c12Scenario{Name: fmt.Sprintf("reader-%s@%d/%s/%s", spec, r, pr.n, tag), Pre: pr.p,
+						ID: 0, Data: d, Reader: spec, R: r, Undamaged: true})
+				}
+			}
+			out = append(out, c12Scenario{Name: fmt.Sprintf("reader-seek2/%s/%s", pr.n, tag), Pre: pr.p, ID: 0, Data: d, Reader: "seek2", Undamaged: true})
+		}
+	}
+	return out
+}
+
+// hugeLimit: above it a content is exercised with the direct oracles only
+const hugeLimit = 200000
+
+// hugeContents: sizes just past powers of two that an implementation might single out
+func hugeContents(tier string) [][]byte {
+	out := [][]byte{c12pat((1<<20)+3, 6)}
+	if tier == "thorough" {
+		out = append(out, c12pat((1<<16)+1, 7), c12pat((4<<20)+1, 8))
+	}
 	return out
 }
 
@@ -746,7 +788,7 @@ func c12AllScenarios(tier string) []c12Scenario {
 	var out []c12Scenario
 	out = append(out, scs...)
 	for _, sc := range scs {
-		if sc.Reader != "" || len(sc.Before) > 0 || len(sc.After) > 0 || strings.Contains(sc.Name, "-own/") {
+		if sc.Reader != "" || len(sc.Before) > 0 || len(sc.After) > 0 || strings.Contains(sc.Name, "-own/") || len(sc.Data) > hugeLimit {
 			continue
 		}
 		pb := sc
@@ -800,6 +842,7 @@ func newC12Shard(f *common.Flags, shim string, idx int, rec sink, prefix string)
 func (rn *c12Runner) scenarioAll(sc *c12Scenario) {
 	res, w, f := rn.res, rn.w, rn.f
 	big := len(sc.Data) > 50000
+	huge := len(sc.Data) > hugeLimit
 	// lookups of the pre-state (for the frame oracle)
 	rn.materialize(sc.Pre)
 	for _, bp := range sc.Before {
@@ -813,7 +856,11 @@ func (rn *c12Runner) scenarioAll(sc *c12Scenario) {
 	if lk, err := w.call(map[string]any{"cmd": "lookups", "ids": []string{idHex(0), idHex(1), idHex(2), idHex(3)}}); err == nil {
 		pre = lk.Lookups
 	}
-	base := rn.runCase(sc, nil, pre, !(big && sc.API != "") || f.Tier == "thorough")
+	base := rn.runCase(sc, nil, pre, (!(big && sc.API != "") || f.Tier == "thorough") && !huge)
+	if huge {
+		res.Count("oracles-only")
+		res.Count(fmt.Sprintf("huge:size%d", len(sc.Data)))
+	}
 	res.Case(sc.Name+":none", true)
 	res.Count("scenario:" + strings.SplitN(sc.Name, "/", 2)[0])
 	res.Count("outcome:" + base.res)
@@ -834,6 +881,9 @@ func (rn *c12Runner) scenarioAll(sc *c12Scenario) {
 		}
 	}
 	for k := 0; k < base.nops; k++ {
+		if huge && !(k < 8 || k >= base.nops-8 || k%8 == 0) {
+			continue // a 1 MiB output is written in some forty operations: the first, the last and every eighth
+		}
 		op := base.log[k]
 		var plans []c12Plan
 		plans = append(plans, c12Plan{k, "fail", 0}, c12Plan{k, "stopbefore", 0}, c12Plan{k, "stopafter", 0})
@@ -872,7 +922,7 @@ func (rn *c12Runner) scenarioAll(sc *c12Scenario) {
 			}
 			seenPlan[pl.String()] = true
 			// the model is expensive on the 100000-byte content: compare it on a subset there
-			cmp := !big || f.Tier == "thorough" || (sc.API == "" && (pl.Kind == "stopafter" || (pl.Kind == "fail" && k%2 == 0) || (pl.Kind == "torn" && pl.J > 1)))
+			cmp := !huge && (!big || f.Tier == "thorough" || (sc.API == "" && (pl.Kind == "stopafter" || (pl.Kind == "fail" && k%2 == 0) || (pl.Kind == "torn" && pl.J > 1))))
 			o := rn.runCase(sc, pl, pre, cmp)
 			res.Case(sc.Name+":"+pl.String(), true)
 			res.Count("fault:" + pl.Kind)
@@ -988,7 +1038,7 @@ func runC12(f *common.Flags, res *common.Result, m *mdl) {
 					j, _ := strconv.Atoi(ps[2])
 					plan = &c12Plan{k, ps[1], j}
 				}
-				o := rn.runCase(&scs[i], plan, nil, true)
+				o := rn.runCase(&scs[i], plan, nil, len(scs[i].Data) <= hugeLimit)
 				res.Case(scs[i].Name+plan.String(), true)
 				rn.report(&scs[i], plan, o)
 			}
